@@ -3,6 +3,7 @@
 package main
 
 import (
+	"strconv"
 	"strings"
 	"verifharness/cmd/c07/sd"
 	"verifharness/vh"
@@ -111,12 +112,47 @@ func genHeld(g *vh.Gen) {
 	}
 }
 
+// genMeta: long and odd METADATA (mode direct@meta, see sd/meta.go): the subject, From, To list and the
+// date's sub-second part and zone are a function of the tag; the instant of the date is drawn from odd
+// values; everything read back is compared field by field on both stores.
+func genMeta(g *vh.Gen) {
+	dates := []int64{-62135596800, -2208988800, -1, 0, 1, 951782400, 1600000000, 2147483648, 4102444800, 253402300799}
+	for i := 0; i < g.N(24, 1200); i++ {
+		names := sd.Names(g)
+		if len(names) > 3 {
+			names = names[:3]
+		}
+		n := 5 + g.Intn(12)
+		var ops []string
+		for k := 0; k < n; k++ {
+			mb := g.Intn(len(names))
+			ops = append(ops, "a"+vh.I(mb)+":"+strconv.FormatInt(dates[g.Intn(len(dates))], 10)+":"+vh.I(120+g.Intn(400)))
+			switch g.Intn(5) {
+			case 0:
+				ops = append(ops, "l"+vh.I(mb))
+			case 1:
+				ops = append(ops, "g"+vh.I(mb)+":l")
+			case 2:
+				ops = append(ops, "s"+vh.I(mb)+":k0", "g"+vh.I(mb)+":k0")
+			case 3:
+				ops = append(ops, "v")
+			}
+		}
+		for mb := range names {
+			ops = append(ops, "l"+vh.I(mb))
+		}
+		ops = append(ops, "v")
+		sd.EmitHistory(g, []string{"mem", "file"}, "direct@meta", 0, 0, names, strings.Join(ops, ","))
+	}
+}
+
 func genAll(g *vh.Gen) {
 	gen(g)
 	sd.GenCollide(g)
 	genSizes(g)
 	genVisitStop(g)
 	genHeld(g)
+	genMeta(g)
 	// arrival order is not id order: a mailbox whose deliveries straddle the wrap of the id counter
 	// within one second (planted, see sd/wrap.go); listing, "latest", get/seen/remove by handle
 	for i := 0; i < g.N(12, 200); i++ {
